@@ -166,7 +166,35 @@ def run_op(scn, conn=None):
     elif scn.get('resv') == 'stale':
         resv = 0x0999
 
+    def walks():
+        # two or three listing generators in progress at once on this Ipmi object, advanced in the order
+        # scn['order'] and then drained; every exchange / sleep is attributed to the generator being advanced
+        gens, res = [], []
+        for g in scn['gens']:
+            gens.append(ipmi.sdr_repository_entries() if g == 'repo' else ipmi.device_sdr_entries())
+            res.append({'store': g, 'recs': [], 'status': None, 'idx': [], 'sleeps': []})
+        order = list(scn['order']) + [g for _ in range(300) for g in range(len(gens))]
+        for gi in order:
+            r = res[gi]
+            if r['status'] is not None:
+                if all(x['status'] is not None for x in res):
+                    break
+                continue
+            m0, s0 = len(itf.log), len(sleeps)
+            try:
+                rec = next(gens[gi])
+                r['recs'].append((rec.next_id, bytes(rec.data.array).hex()))
+            except StopIteration:
+                r['status'] = 'done'
+            except Exception as e:  # noqa
+                r['status'] = exc_name(e)
+            r['idx'] += list(range(m0, len(itf.log)))
+            r['sleeps'] += sleeps[s0:]
+        return res
+
     def go():
+        if scn['op'] == 'walks':
+            return walks()
         if scn['op'] == 'get':
             fn = ipmi.get_repository_sdr if store == 'repo' else ipmi.get_device_sdr
             s = fn(scn['rid'], resv)
@@ -207,6 +235,21 @@ def c_rec(r):
 
 
 def term(scn, dev, log, sleeps, out, resv):
+    if scn['op'] == 'walks':
+        parts = ['chk_dev %s %s %s' % (dev.init, C.c_list([fakeif.c_request(x) for x in log]),
+                                       C.c_list([fakeif.c_reply(x) for x in log]))]
+        for g in (out[1] if out[0] == 'ok' else []):
+            sub = [log[i] for i in g['idx']]
+            exp = ('(Ok %s)' % C.c_list([c_rec(r) for r in g['recs']]) if g['status'] == 'done'
+                   else '(Err %s)' % c_err(g['status'] or 'OtherError'))
+            parts.append('chk_walk %s %s %s %s %s' % ('Repo' if g['store'] == 'repo' else 'DevSdr',
+                                                      C.c_list([fakeif.c_request(x) for x in sub]),
+                                                      C.c_list([fakeif.c_reply(x) for x in sub]),
+                                                      C.c_list([C.c_N(x) for x in g['sleeps']]), exp))
+        t = parts[-1]
+        for q_ in reversed(parts[:-1]):
+            t = 'andb (%s) (%s)' % (q_, t)
+        return t
     reqs = C.c_list([fakeif.c_request(x) for x in log])
     reps = C.c_list([fakeif.c_reply(x) for x in log])
     sl = C.c_list([C.c_N(x) for x in sleeps])
@@ -233,8 +276,66 @@ def baseline_ok(scn):
     return _baseline[key]
 
 
+def want_list(recs):
+    return [((recs[k + 1][0] | recs[k + 1][1] << 8) if k + 1 < len(recs) else 0xFFFF, r.hex()) for k, r in enumerate(recs)]
+
+
+def oracle_walks(scn, log, out):
+    """generators in progress side by side on one Ipmi object: each yields every record of ITS store exactly
+    once, in order, byte-exact, and talks only to its store"""
+    if out[0] != 'ok':
+        return 'sdr_entries:interleaved-walks-failed', 'interleaved walks raised %s' % (out[1],)
+    for n, g in enumerate(out[1]):
+        for i in g['idx']:
+            if log[i].netfn != NETFN[g['store']]:
+                return ('Sdr._get_sdr_chunk:reservation-of-other-store' if g['store'] == 'repo' else 'Sensor._get_device_sdr_chunk:reservation-of-other-store',
+                        'walk %d of the %s store sent a request to netfn 0x%02x' % (n, g['store'], log[i].netfn))
+        want = want_list([bytes.fromhex(r) for r in scn[g['store']]])
+        got = [tuple(x) for x in g['recs']]
+        ids = lambda l: ['0x%x' % (int(h[2:4] + h[0:2], 16)) for _, h in l]
+        if (g['status'] == 'done' and got != want) or got != want[:len(got)]:
+            return ('sdr_entries:list-incomplete',
+                    'walk %d (%s store) of %d walks in progress on one Ipmi object, order %s: yielded records %s, the store holds %s'
+                    % (n, g['store'], len(out[1]), scn['order'][:12], ids(got), ids(want)))
+        if g['status'] != 'done' and not any(tuple(f)[0] != 'none' for f in scn['plan']):
+            return ('sdr:not-completed-interleaved', 'walk %d (%s store) ended with %s although no fault was injected'
+                    % (n, g['store'], g['status']))
+    return None
+
+
+def must_complete(scn, log):
+    """The read has to complete when only cancellations and transient codes (0xC3 / 0xCE) were injected, no
+    code hit a Reserve request, and no chunk request was refused more than 3 times in a row with
+    0xC5 / 0xC3 / 0xCE: get_sdr_chunk_helper(retry=5) sends a chunk request up to 4 times, renewing the
+    reservation after each 0xC5 (measured on /repo: 3 consecutive cancellations of one chunk complete, 4 give
+    RetryError)."""
+    faults = [tuple(f) for f in scn['plan'] if tuple(f)[0] != 'none']
+    if not faults or any(not (f[0] == 'cancel' or (f[0] == 'code' and f[1] in (0xC3, 0xCE))) for f in faults):
+        return None
+    run_key, refused = None, 0
+    for x in log:
+        single = isinstance(x.reply, (bytes, bytearray)) and len(x.reply) == 1
+        if x.cmd == 0x22:
+            if single or not isinstance(x.reply, (bytes, bytearray)):
+                return None                       # a code on a Reserve request is simply raised
+            continue
+        key = bytes(x.data[2:6])
+        if key != run_key:
+            run_key, refused = key, 0
+        if single and x.reply[0] in (0xC5, 0xC3, 0xCE):
+            refused += 1
+            if refused > 3:
+                return None
+        else:
+            run_key, refused = None, 0            # answered (data or another code): the fetch of this chunk is over
+    kinds = sorted({'cancellation' if f[0] == 'cancel' else 'transient-code' for f in faults})
+    return '+'.join(kinds)
+
+
 def oracle(scn, dev, log, out):
     """returns (key, message) or None"""
+    if scn['op'] == 'walks':
+        return oracle_walks(scn, log, out)
     store = scn['store']
     for x in log:
         if x.netfn != NETFN[store]:
@@ -263,19 +364,12 @@ def oracle(scn, dev, log, out):
                 return 'sdr_entries:list-incomplete', 'listed %d records, device holds %d' % (len(got), len(want))
         return None
     # an error: acceptable unless the read must complete
-    plan = [tuple(f) for f in scn['plan']]
-    faults = [(i, f) for i, f in enumerate(plan) if f[0] != 'none']
-    must = False
-    if faults and all(f[0] == 'cancel' for _, f in faults) and len(faults) <= 2:
-        must = True
-    elif len(faults) == 1 and faults[0][1][0] == 'code' and faults[0][1][1] in (0xC3, 0xCE):
-        i = faults[0][0]
-        must = i < len(log) and log[i].cmd != 0x22       # a code on a reserve request is simply raised
-    if must and baseline_ok(scn):
-        kind = 'cancellation' if faults[0][1][0] == 'cancel' else 'transient-code'
-        return ('sdr:not-completed-after-%s' % kind,
-                'read ends with %s although it completes without the injected %s at request index %s'
-                % (out[1], kind, [i for i, _ in faults]))
+    kind = must_complete(scn, log)
+    if kind and baseline_ok(scn):
+        idx = [i for i, f in enumerate(scn['plan']) if tuple(f)[0] != 'none']
+        return ('sdr:not-completed-after-%s' % ('cancellation' if kind.startswith('cancellation') else 'transient-code'),
+                'read ends with %s although it completes without the injected %s at request indices %s and no chunk request '
+                'was refused more than 3 times in a row' % (out[1], kind, idx))
     return None
 
 
@@ -285,6 +379,8 @@ def oracle_resv(scn, log, resv):
     (0xC3 / 0xCE / raised node-busy); otherwise (first request of a chunk) the reservation the operation was
     given / obtained at its start, or the one it most recently renewed to.  Never a value remembered from an
     earlier operation."""
+    if scn['op'] == 'walks':
+        return None          # judged per generator by oracle_walks (walks of one store cancel each other by design)
     store = scn['store']
     held = resv
     latest = resv         # most recently obtained in THIS operation (or supplied by the caller)
@@ -473,6 +569,27 @@ def run(ctx):
                  hstep(1, stores[(rep + 1) % 2], 'list', a, lim, []),
                  hstep(2, store, 'list', b, lim, cancel_plan(5) if rep % 2 else [])]
         history(steps[:rng.randrange(2, 6)], 'history listings')
+    for rep in range(18 if q else 120):
+        # two or three listing generators IN PROGRESS AT ONCE on one Ipmi object: side by side (alternating),
+        # nested (a walk started and finished inside another walk's loop body), random interleavings;
+        # same store twice, both stores
+        hid[0] += 1
+        a, b = small_store(rng.randrange(2, 7)), small_store(rng.randrange(2, 7))
+        gens = [['repo', 'dev'], ['dev', 'repo'], ['repo', 'repo'], ['dev', 'dev'], ['repo', 'dev', 'repo'], ['dev', 'dev', 'repo']][rep % 6]
+        n = len(gens)
+        shape = (rep // 6) % 3
+        if shape == 0:
+            order = [i % n for i in range(rng.randrange(2, 16))]
+        elif shape == 1:
+            order = [0] * rng.randrange(1, 3) + [1] * 12 + ([2] * 12 if n > 2 else [])
+        else:
+            order = [rng.randrange(n) for _ in range(rng.randrange(2, 16))]
+        st = {'repo': a, 'dev': b, 'limit': rng.choice([255, 20, 16]), 'plan': [] if rep % 4 else cancel_plan(8),
+              'op': 'walks', 'gens': gens, 'order': order, 'store': gens[0], 'resv': 'none', 'conn': 'h%d-0' % hid[0]}
+        steps = [st]
+        if rep % 3 == 0:
+            steps.append(hstep(0, gens[0], 'list', a if gens[0] == 'repo' else b, 255, []))
+        history(steps, 'history interleaved walks')
     for rep in range(24 if q else 150):
         # reads: a cancelled + renewed reservation in an earlier read, then reads whose reservation has the
         # same numeric value again (counter restarted / small ids), same object and a later object
@@ -520,6 +637,36 @@ def run(ctx):
                         if q and store == 'dev' and f[0] != 'cancel' and i % 2:
                             continue
                         case(dict(base, plan=[('none',)] * i + [f]), 'fault@index ' + f[0])
+    # B2. two, three and four CONSECUTIVE refusals of the same chunk request: the reservation is cancelled again
+    # between the renewal and the re-sent request (and cancellation / transient code combinations).  The fault
+    # indices are found adaptively: the re-sent request is the next Get after the previous fault.
+    def mkplan(at):
+        return [at.get(i, ('none',)) for i in range(max(at) + 1)]
+
+    def consecutive(base, first, faults):
+        at = {first: faults[0]}
+        for f in faults[1:]:
+            log = run_op(dict(base, plan=mkplan(at)))[1]
+            nxt = next((j for j in range(max(at) + 1, len(log)) if log[j].cmd != 0x22), None)
+            if nxt is None:
+                break
+            at[nxt] = f
+        return mkplan(at)
+    CAN, T3, TE = ('cancel',), ('code', 0xC3), ('code', 0xCE)
+    shapes = [[CAN, CAN], [CAN, CAN, CAN], [CAN, CAN, CAN, CAN], [CAN, T3], [T3, CAN], [CAN, TE, CAN], [T3, TE, CAN], [CAN, CAN, T3, CAN]]
+    bases = [('get', [9, 25, 30], 255), ('get', [9, 64, 30], 16), ('get', [7, 260], 255), ('list', [16, 30, 9], 255), ('list', [21, 5, 47, 12], 20)]
+    if not q:
+        bases += [('get', [9, ln, 11], lim) for ln in (21, 120) for lim in (8, 12, 20)] + [('list', [30] * 6, 16)]
+    for op, lens, lim in bases:
+        for store in stores:
+            for resv in (('none', 'valid') if op == 'get' else ('none',)):
+                base = scenario(store, lens, lim, [], op=op, pos=1, resv=resv)
+                blog = run_op(base)[1]
+                gets = [i for i, x in enumerate(blog) if x.cmd != 0x22]
+                pick = gets if (not q or len(gets) <= 6) else gets[:3] + rng.sample(gets[3:], 3)
+                for i in pick:
+                    for sh_ in (shapes if (not q or i == pick[0]) else rng.sample(shapes, 3) + [shapes[0]]):
+                        case(dict(base, plan=consecutive(base, i, sh_)), 'consecutive refusals x%d' % len(sh_))
     # C. several faults
     for _ in range(120 if q else 2500):
         ln, lim = rng.choice(LENGTHS + [rng.randrange(5, 261)]), rng.choice(LIMITS)
@@ -571,11 +718,13 @@ def run(ctx):
                 'limits {4,5,7,8,12,13,16,20,255} on both stores, plain and with one fault; one fault '
                 '(cancellation / 0xC3 / 0xCE / raised node-busy) at every request index of selected reads; random plans '
                 'with up to 4 faults incl. other codes; lists of 1..12 (thorough ..60) records with a cancellation / code at '
-                'request indices; absent record, empty store; both stores; with/without caller reservation (valid, stale). '
+                'request indices; 2 / 3 / 4 consecutive refusals (cancellation, 0xC3, 0xCE combinations) of the same chunk request at '
+                'Get indices of reads and lists; absent record, empty store; both stores; with/without caller reservation (valid, stale). '
                 'Compared per case: every request, every sleep, outcome (model replayed in Coq on the recorded replies) and '
                 'the Gallina device on the recorded requests. History stage (run first): listings and reads in a row on one '
                 'Ipmi object and on later created objects against fresh devices with restarting / small reservation counters, '
-                'each step compared with the stateless model and judged (exact, complete, reservation carried, same store). distinct = distinct (operation, store, id, limit, plan, records); '
+                'two or three listing generators in progress at once on one object (alternating, nested, random; same store twice, '
+                'both stores), each step / each generator compared with the stateless model and judged (exact, complete, reservation carried, same store). distinct = distinct (operation, store, id, limit, plan, records); '
                 'non-trivial = more than 3 exchanges')
     res.samples = [{'case': meta[i], 'term': terms[i][:600]} for i in (0, len(terms) // 3, len(terms) // 2, len(terms) - 1)]
     res.oracle_failures = list(fails.values())
